@@ -1,7 +1,7 @@
 """C20 configuration for bin/check."""
 CFG = dict(
     also=["C16"],   # 'several sources fetched concurrently ... same as one at a time': C16's gated fetcher and model
-    level="partial", pfile="P_C20.v", rmod="R_C20", judge="judge_C20",
+    level="proof", pfile="P_C20.v", rmod="R_C20", judge="judge_C20",
     technique="Coq proof about an interleaving semantics of event-list threads + translator (lockscan) regenerating the "
               "event lists from /repo + concurrent stress cases compared with the model + the same stress under the Go race detector",
     level_text="Theorems for ANY number of threads and ANY interleaving: well_locked => mutual exclusion and race freedom "
